@@ -35,6 +35,7 @@ VARIABLES
   rx,        \* bytes arrived at the socket, not yet read
   raw,       \* bytes read, not yet recognised as PDUs          (raw_pdu)
   peerFin,   \* the peer closed its sending side
+  wdead,     \* the transport is dead for writing too (connection reset): a send fails
   nid,       \* payload ids handed out so far
   evq,       \* Seq([e, id]) pending events                     (event)
   slot,      \* current payload [id, k, f, pdvs, grey]          (primitive)
@@ -46,7 +47,7 @@ VARIABLES
   ended,     \* the machine has come back to Sta1
   out        \* outputs of the last step (overwritten every step)
 
-vars == <<isReq, st, sock, stream, transit, rx, raw, peerFin, nid, evq, slot, uq, gen, artim, dec, user, ended, out>>
+vars == <<isReq, st, sock, stream, transit, rx, raw, peerFin, wdead, nid, evq, slot, uq, gen, artim, dec, user, ended, out>>
 
 Fresh  == [cr |-> FALSE, dr |-> FALSE, unk |-> FALSE]      \* reassembly state: nothing received
 NoSlot == [id |-> 0, k |-> "-", f |-> <<>>, pdvs |-> <<>>, grey |-> FALSE]
@@ -64,7 +65,7 @@ ReadsSlot(e) == e \in {1, 3, 4, 6, 7, 8, 9, 10, 12, 13, 15, 16}
 
 InitFor(role) ==
   /\ isReq = role /\ st = 1 /\ sock = (IF role THEN "none" ELSE "open")
-  /\ stream = <<>> /\ transit = 0 /\ rx = 0 /\ raw = 0 /\ peerFin = FALSE
+  /\ stream = <<>> /\ transit = 0 /\ rx = 0 /\ raw = 0 /\ peerFin = FALSE /\ wdead = FALSE
   /\ nid = 0 /\ evq = (IF role THEN <<>> ELSE <<[e |-> 5, id |-> 0]>>)
   /\ slot = NoSlot /\ uq = <<>> /\ gen = NoGen /\ artim = "off" /\ dec = Fresh
   /\ user = "idle" /\ ended = FALSE /\ out = NoOut
@@ -76,24 +77,28 @@ PeerSend(frames, n) ==     \* n = bytes really written (less than SumLen(frames)
   /\ ~peerFin
   /\ stream' = stream \o frames /\ transit' = transit + n
   /\ out' = NoOut
-  /\ UNCHANGED <<isReq, st, sock, rx, raw, peerFin, nid, evq, slot, uq, gen, artim, dec, user, ended>>
+  /\ UNCHANGED <<isReq, st, sock, rx, raw, peerFin, wdead, nid, evq, slot, uq, gen, artim, dec, user, ended>>
 
 Arrive(n) ==
   /\ n \in 1..transit
   /\ transit' = transit - n /\ rx' = rx + n /\ out' = NoOut
-  /\ UNCHANGED <<isReq, st, sock, stream, raw, peerFin, nid, evq, slot, uq, gen, artim, dec, user, ended>>
+  /\ UNCHANGED <<isReq, st, sock, stream, raw, peerFin, wdead, nid, evq, slot, uq, gen, artim, dec, user, ended>>
 
 PeerFin ==
   /\ ~peerFin /\ peerFin' = TRUE /\ out' = NoOut
-  /\ UNCHANGED <<isReq, st, sock, stream, transit, rx, raw, nid, evq, slot, uq, gen, artim, dec, user, ended>>
+  /\ UNCHANGED <<isReq, st, sock, stream, transit, rx, raw, wdead, nid, evq, slot, uq, gen, artim, dec, user, ended>>
 
 UserPut(item) ==
   /\ uq' = Append(uq, item) /\ out' = NoOut
-  /\ UNCHANGED <<isReq, st, sock, stream, transit, rx, raw, peerFin, nid, evq, slot, gen, artim, dec, user, ended>>
+  /\ UNCHANGED <<isReq, st, sock, stream, transit, rx, raw, peerFin, wdead, nid, evq, slot, gen, artim, dec, user, ended>>
+
+PeerReset ==   \* the connection is reset: nothing more arrives, reads see the end at once, writes fail
+  /\ ~peerFin /\ peerFin' = TRUE /\ wdead' = TRUE /\ transit' = 0 /\ rx' = 0 /\ out' = NoOut
+  /\ UNCHANGED <<isReq, st, sock, stream, raw, nid, evq, slot, uq, gen, artim, dec, user, ended>>
 
 Tick ==     \* enough time passes for a running ARTIM to be past its limit
   /\ artim = "run" /\ artim' = "exp" /\ out' = NoOut
-  /\ UNCHANGED <<isReq, st, sock, stream, transit, rx, raw, peerFin, nid, evq, slot, uq, gen, dec, user, ended>>
+  /\ UNCHANGED <<isReq, st, sock, stream, transit, rx, raw, peerFin, wdead, nid, evq, slot, uq, gen, dec, user, ended>>
 
 (* ------------------------------ reassembly ------------------------------- *)
 (* PDV flavours: "Cn" command fragment, "C0" last command fragment of a    *)
@@ -112,6 +117,10 @@ DecRun(d, pdvs) ==          \* stops at completion (the rest of the PDU is not l
   ELSE LET r == PdvStep(d, Head(pdvs).fl) IN
        IF r[2] THEN <<Fresh, TRUE, Head(pdvs).m>> ELSE DecRun(r[1], Tail(pdvs))
 
+(* data fragments before the command set is complete: out of contract (PS3.7 6.3.1), the reaction is free *)
+IrregularData(d, pdvs) == \E i \in 1..Len(pdvs) : pdvs[i].fl \in {"Dn", "Dl"} /\ ~d.cr
+                                                    /\ \A j \in 1..(i - 1) : pdvs[j].fl \notin {"C0", "C1"}
+
 (* ------------------------------ one iteration ----------------------------- *)
 Readable == sock = "open" /\ (rx > 0 \/ (peerFin /\ transit = 0))
 HeadComplete(r) == stream # <<>> /\ r >= Head(stream).len
@@ -126,12 +135,14 @@ SrcReady(src, r, eof) ==
     [] src = "none"  -> TRUE
     [] OTHER -> FALSE
 
-Iterate(rcv, src, wireF, indF, asInvalid, dimseFail, msgInd) ==
+Iterate(rcv, src, wireF, indF, asInvalid, dimseFail, msgInd, sendFail) ==
   (* rcv: TRUE = the socket is read in this iteration.  wireF/indF: concrete values taken by    *)
   (* fields the standard leaves free (bound from the trace when validating, canonical in MC).   *)
   (* asInvalid: a grey frame is taken as Evt19.  dimseFail: a grey P-DATA fails inside          *)
   (* DT-2/AR-6 and the reaction is AA-8's.  msgInd: what was indicated by DT-2/AR-6 when the    *)
   (* reassembly state is unknown (after a grey P-DATA was taken as valid): nothing or a message. *)
+  (* sendFail: the action's write hits a dead transport: nothing is sent or indicated, the state  *)
+  (* does not change, the connection is closed and the transport-closed event is raised.          *)
   LET doRcv == rcv /\ Readable /\ st # 4
       n     == IF doRcv THEN rx ELSE 0
       eof   == doRcv /\ rx = 0
@@ -174,7 +185,7 @@ Iterate(rcv, src, wireF, indF, asInvalid, dimseFail, msgInd) ==
      /\ uq' = IF src = "user" /\ gen = <<>> THEN Tail(uq) ELSE uq
      \* ---- state-machine phase: pop exactly one event if there is one
      /\ IF q = <<>>
-        THEN /\ evq' = q /\ sock' = sockP
+        THEN /\ ~sendFail /\ evq' = q /\ sock' = sockP
              /\ out' = [NoOut EXCEPT !.closed = eof]
              /\ UNCHANGED <<st, artim, dec, user, ended>>
         ELSE LET h == Head(q)
@@ -183,7 +194,8 @@ Iterate(rcv, src, wireF, indF, asInvalid, dimseFail, msgInd) ==
                  paired == ReadsSlot(e) => (h.id = p.id)
                  \* a grey PDU may be taken as its type's event or as invalid (Evt19)
                  c0 == Cell(e, st, isReq)
-                 fail == dimseFail /\ p.grey /\ c0[1] \in {"DT2", "AR6"}
+                 odd == p.grey \/ (c0[1] \in {"DT2", "AR6"} /\ IrregularData(dec, p.pdvs))
+                 fail == dimseFail /\ odd /\ c0[1] \in {"DT2", "AR6"}
                  c == IF fail THEN <<"AA8", 13>> ELSE c0
                  a == c[1]
                  dr == IF a \in {"DT2", "AR6"} THEN DecRun(dec, p.pdvs) ELSE <<dec, FALSE, 0>>
@@ -196,26 +208,31 @@ Iterate(rcv, src, wireF, indF, asInvalid, dimseFail, msgInd) ==
                  i == CASE a \in {"AE3", "AE4", "AE6", "AA3"} -> <<[k |-> IndOf(a), f |-> p.f]>>
                         [] a \in {"AR2", "AR8", "AR3", "AR10"} -> <<[k |-> IndOf(a), f |-> <<>>]>>
                         [] a \in {"AA4", "AA8"} -> <<[k |-> "AB", f |-> indF]>>
-                        [] a \in {"DT2", "AR6"} /\ (dec.unk \/ p.grey) -> msgInd
+                        [] a \in {"DT2", "AR6"} /\ (dec.unk \/ odd) -> msgInd
                         [] a \in {"DT2", "AR6"} /\ dr[2] -> <<[k |-> "MSG", f |-> <<dr[3]>>]>>
                         [] OTHER -> <<>>
+                 sf == sendFail /\ wdead /\ w # <<>>
              IN
-             /\ evq' = Tail(q)
-             /\ st' = c[2]
-             /\ sock' = IF Closes(a) THEN "none" ELSE IF Opens(a) THEN "open" ELSE sockP
-             /\ artim' = CASE TimerOf(a) \in {"start", "restart"} -> "run"
-                           [] TimerOf(a) = "stop" -> "off" [] OTHER -> artim
-             /\ dec' = IF a \in {"DT2", "AR6"} THEN (IF p.grey \/ dec.unk THEN [Fresh EXCEPT !.unk = TRUE] ELSE dr[1]) ELSE dec
-             /\ user' = CASE a \in {"AE6", "AE3"} -> "assoc"
-                          [] a = "AE1" -> "assoc"      \* the requesting user awaits the outcome
-                          [] a \in {"AE4", "AR3", "AA3", "AA4", "AA8"} -> "over"
-                          [] a \in {"AE8", "AR4", "AA1"} /\ e \in {8, 14, 15} -> "over"   \* the user ended it
-                          [] a = "AA2" /\ e = 15 -> "over"
-                          [] OTHER -> user
-             /\ ended' = (ended \/ (c[2] = 1 /\ a # "none"))
-             /\ out' = [act |-> a, evt |-> e, wire |-> w, ind |-> i, closed |-> (Closes(a) \/ eof),
-                        paired |-> paired]
-  /\ UNCHANGED <<isReq, transit, peerFin>>
+             /\ (sendFail => sf) /\ ((wdead /\ w # <<>> /\ sockP = "open") => sendFail)
+             /\ evq' = IF sf THEN Append(Tail(q), [e |-> 17, id |-> 0]) ELSE Tail(q)
+             /\ st' = IF sf THEN st ELSE c[2]
+             /\ sock' = IF sf THEN "none" ELSE IF Closes(a) THEN "none" ELSE IF Opens(a) THEN "open" ELSE sockP
+             /\ artim' = IF sf THEN artim ELSE
+                          CASE TimerOf(a) \in {"start", "restart"} -> "run"
+                            [] TimerOf(a) = "stop" -> "off" [] OTHER -> artim
+             /\ dec' = IF sf THEN dec ELSE
+                        IF a \in {"DT2", "AR6"} THEN (IF odd \/ dec.unk THEN [Fresh EXCEPT !.unk = TRUE] ELSE dr[1]) ELSE dec
+             /\ user' = IF sf THEN user ELSE
+                         CASE a \in {"AE6", "AE3"} -> "assoc"
+                           [] a = "AE1" -> "assoc"      \* the requesting user awaits the outcome
+                           [] a \in {"AE4", "AR3", "AA3", "AA4", "AA8"} -> "over"
+                           [] a \in {"AE8", "AR4", "AA1"} /\ e \in {8, 14, 15} -> "over"   \* the user ended it
+                           [] a = "AA2" /\ e = 15 -> "over"
+                           [] OTHER -> user
+             /\ ended' = IF sf THEN ended ELSE (ended \/ (c[2] = 1 /\ a # "none"))
+             /\ out' = IF sf THEN [act |-> "sendfail", evt |-> e, wire |-> <<>>, ind |-> <<>>, closed |-> TRUE, paired |-> paired]
+                        ELSE [act |-> a, evt |-> e, wire |-> w, ind |-> i, closed |-> (Closes(a) \/ eof), paired |-> paired]
+  /\ UNCHANGED <<isReq, transit, peerFin, wdead>>
 
 (* Reaction to a PDU that is framed but whose content cannot be decoded ("grey"): the           *)
 (* implementation may treat it as its type's event (above) or as Evt19; a grey P-DATA in         *)
